@@ -102,7 +102,7 @@ func (w *srvWorld) probeC03() {
 
 // C06: concurrency bound and work conservation.
 func scenarioC06(r *Run) {
-	w := newSrvWorld(r, srvCfg{Prop: "C06", MaxMsgs: 5, MaxBatch: 6, RPCInfo: true, HoldP: 0.6, NoteP: 0.2, KMax: 4})
+	w := newSrvWorld(r, srvCfg{Prop: "C06", MaxMsgs: 5, MaxBatch: 6, RPCInfo: true, Cancels: 2, HoldP: 0.6, NoteP: 0.2, KMax: 4})
 	var waiter []*member
 	w.start()
 	ok := w.drive(func() {
